@@ -338,7 +338,7 @@ def r6_wiring(repo):
             ok = ok and len(st) == 1 and src(st[0].value) == argname and st[0] in m.tree.body
         else:
             ok = ok and len(st) == 1 and const_value(st[0].value, 1) == 0 and isinstance(st[0]._parent, ast.If) and \
-                src(st[0]._parent.test) == argname
+                src(st[0]._parent.test) == argname and st[0]._parent in m.tree.body and st[0] in st[0]._parent.body
         obs.append(Ob("C17-R6", "flag:%s->%s" % (flag, target), "src/args.py:%d" % (st[0].lineno if st else 1), ok,
                       "%s (store_true) must set %s %s" % (flag, target, "to the flag value" if how == "direct" else "to 0 when given")))
     # nothing else writes the switches
@@ -448,6 +448,15 @@ def _v_wiring(tree):
     raise V.SkipVariant("wiring")
 
 
+def _v_elif_wiring(tree):
+    ifs = [n for n in tree.body if isinstance(n, ast.If) and "disable_" in ast.unparse(n.test)]
+    if len(ifs) < 2:
+        raise V.SkipVariant("ifs")
+    a, b = ifs[0], ifs[1]
+    tree.body.remove(b)
+    a.orelse = [b]
+
+
 def _v_variance_store(tree):
     f = V.find_def(tree, "Generator._create_type_params_from_etype")
     st = [n for n in ast.walk(f) if isinstance(n, ast.Assign) and ast.unparse(n.targets[0]).endswith(".variance")]
@@ -475,6 +484,7 @@ def variants():
         V.Variant("function type parameters drawn although disabled", g, _v_func_params_unconditional, {"C17-R4"}),
         V.Variant("declaration-site variance for Java classes", g, _v_java_variance, {"C17-R5"}),
         V.Variant("variant type parameter stored", g, _v_variance_store, {"C17-R5"}),
+        V.Variant("second probability switch chained with elif", "src/args.py", _v_elif_wiring, {"C17-R6"}),
         V.Variant("--disable-use-site-variance wired to the other flag", "src/args.py", _v_wiring, {"C17-R6"}),
         V.Variant("twin: rename locals in gen_type_params", g, _t_rename, None, twin=True),
         V.Variant("twin: whole tree reformatted by ast.unparse", None, None, None, twin=True),
